@@ -55,9 +55,11 @@ func checkErrorTPL(assign string, err string) string {
 	return "if err := " + assign + "; err != nil {\n goto " + err + "\n}\n"
 }
 
-// IsBaseType determines whether the given type is a base type.
-func ZeroWriter(t *parser.Type, oprot string, err string) string {
-	switch t.GetCategory() {
+// ZeroWriter returns the code that writes the zero value of the type of the given context.
+// The key and element types are taken from the sub-contexts: a reference to a typedef'd
+// container has no KeyType/ValueType of its own.
+func ZeroWriter(c *ReadWriteContext, oprot string, err string) string {
+	switch c.Type.GetCategory() {
 	case parser.Category_Bool:
 		return checkErrorTPL(oprot+".WriteBool(false)", err)
 	case parser.Category_Byte:
@@ -75,19 +77,19 @@ func ZeroWriter(t *parser.Type, oprot string, err string) string {
 	case parser.Category_Binary:
 		return checkErrorTPL(oprot+".WriteBinary([]byte{})", err)
 	case parser.Category_Map:
-		return checkErrorTPL(oprot+".WriteMapBegin(thrift."+GetTypeIDConstant(t.GetKeyType())+
-			",thrift."+GetTypeIDConstant(t.GetValueType())+",0)", err) + checkErrorTPL(oprot+".WriteMapEnd()", err)
+		return checkErrorTPL(oprot+".WriteMapBegin(thrift."+GetTypeIDConstant(c.KeyCtx.Type)+
+			",thrift."+GetTypeIDConstant(c.ValCtx.Type)+",0)", err) + checkErrorTPL(oprot+".WriteMapEnd()", err)
 	case parser.Category_List:
-		return checkErrorTPL(oprot+".WriteListBegin(thrift."+GetTypeIDConstant(t.GetValueType())+
+		return checkErrorTPL(oprot+".WriteListBegin(thrift."+GetTypeIDConstant(c.ValCtx.Type)+
 			",0)", err) + checkErrorTPL(oprot+".WriteListEnd()", err)
 	case parser.Category_Set:
-		return checkErrorTPL(oprot+".WriteSetBegin(thrift."+GetTypeIDConstant(t.GetValueType())+
+		return checkErrorTPL(oprot+".WriteSetBegin(thrift."+GetTypeIDConstant(c.ValCtx.Type)+
 			",0)", err) + checkErrorTPL(oprot+".WriteSetEnd()", err)
 	case parser.Category_Struct, parser.Category_Union, parser.Category_Exception:
 		return checkErrorTPL(oprot+".WriteStructBegin(\"\")", err) + checkErrorTPL(oprot+".WriteFieldStop()", err) +
 			checkErrorTPL(oprot+".WriteStructEnd()", err)
 	default:
-		panic("unsuported type zero writer for" + t.Name)
+		panic("unsuported type zero writer for" + c.Type.Name)
 	}
 }
 
